@@ -37,6 +37,7 @@ class KaniUnit:
         self.not_covered = []
         self.functions = []     # (label, relpath) real functions exercised under contract
         self.playback_args = []
+        self.ignore_checks = []   # regexes of CBMC check descriptions that are not Rust failures (e.g. NaN generation)
         self.module = ''        # fully qualified module path of the injected harness module
 
     def append(self, relpath, text):
@@ -235,7 +236,12 @@ def run_kani_unit(unit, repo, tier='quick', jobs=8, keep_ws=False, only=None, pr
                 if not r['checks_total']:
                     out['undecided'].append('%s: zero checks generated' % h['name'])
             elif r['result'] == 'FAILED':
-                real = [f for f in r['failed_checks'] if 'unwinding assertion' not in f['description']]
+                real = [f for f in r['failed_checks'] if 'unwinding assertion' not in f['description']
+                        and not any(re.search(ig, f['description']) for ig in unit.ignore_checks)]
+                if not real and not r.get('unwind_failure'):
+                    rec['result'] = 'SUCCESSFUL'
+                    rec['note'] = (rec.get('note') or '') + ' (only ignored CBMC checks failed: %s)' % unit.ignore_checks
+                    continue
                 if not real and r.get('unwind_failure'):
                     out['undecided'].append('%s: unwinding bound too small (unwinding assertion failed)' % h['name'])
                 else:
